@@ -2,7 +2,7 @@
     checkFeature) and of the checkFeature call sites of meta/resolver.go as they stand after the
     "fix:" commits: addDataDefinition (data nodes and uses), resolver.enter for the cases of a
     choice, expandAugment, applyRefinements (a disabled refine is skipped, the next ones are still
-    applied).  One module, no imports. *)
+    applied), and of the syntax check of Builder.IfFeature.  One module, no imports. *)
 From Coq Require Import List Bool Arith Strings.Byte.
 From YV Require Import Feature.IfFeature.
 Import ListNotations.
@@ -114,8 +114,37 @@ Fixpoint compile_from (enabled : list name) (c : cache) (ss : list stmt) : load 
       end
   end.
 
-(** Initialize (fresh cache), then the statements *)
+(** Builder.IfFeature (meta/builder.go): when the parser reads an if-feature statement its argument
+    is evaluated once against no features, for its syntax only; an error fails the load before
+    anything is resolved.  [On]: every argument is an expression. *)
+Fixpoint validate (ts : list text) : chk :=
+  match ts with
+  | [] => On
+  | t :: tl =>
+      match eval_impl t (env_of []) with
+      | ROk _ => validate tl
+      | RErr => Bad
+      | ROutOfFuel => Fuel
+      end
+  end.
+
+Definition stmt_texts (s : stmt) : list text :=
+  match s with
+  | SData ifs | SCase ifs | SUses ifs | SAugment ifs => ifs
+  | SRefines rs => concat rs
+  end.
+
+(** parse, Initialize (fresh cache), then the statements *)
 Definition compile (cfg : fconfig) (declared : list name) (ss : list stmt) : load :=
+  match validate (flat_map stmt_texts ss) with
+  | Bad => LoadErr
+  | Fuel => LoadFuel
+  | _ => compile_from (initialize cfg declared) [] ss
+  end.
+
+(** the loader before "fix: a malformed if-feature expression is an error wherever it stands":
+    an argument was only looked at when a checkFeature call reached it *)
+Definition compile_old (cfg : fconfig) (declared : list name) (ss : list stmt) : load :=
   compile_from (initialize cfg declared) [] ss.
 
 (** ** Specification *)
